@@ -38,8 +38,8 @@ func rawj(v any) json.RawMessage { b, _ := json.Marshal(v); return b }
 // only restricts the storage-proof scenarios to one saved case (replay mode).
 var only *struct {
 	Version, Era, Leaves, Challenged int
-	Size, TaxH, ProofH                uint64
-	Proof                             string
+	Size, TaxH, ProofH               uint64
+	Proof                            string
 }
 
 // replayProof re-executes the storage-proof case saved in the replay file.
@@ -52,8 +52,8 @@ func replayProof(c *vlib.Ctx) {
 		What string `json:"what"`
 		Case struct {
 			Version, Era, Leaves, Challenged int
-			Size, TaxH, ProofH                uint64
-			Proof                             string
+			Size, TaxH, ProofH               uint64
+			Proof                            string
 		} `json:"case"`
 	}
 	if err := json.Unmarshal(b, &f); err != nil || f.Case.Leaves == 0 {
@@ -85,7 +85,10 @@ func proofs(c *vlib.Ctx) {
 			}
 			shapes = append(shapes, s)
 		case strings.HasPrefix(ln, "ERAOF "):
-			var rows []struct{ Child, TaxH, ProofH uint64; Era int }
+			var rows []struct {
+				Child, TaxH, ProofH uint64
+				Era                 int
+			}
 			if err := json.Unmarshal([]byte(vlib.UnquoteTLA(strings.TrimPrefix(ln, "ERAOF "))), &rows); err != nil {
 				c.Fatal("era table: %v", err)
 			}
